@@ -81,12 +81,14 @@ the transpose wrappers, lazy inverses, compositions and sums of any length, bloc
 operator `A.T` that `transposeOp` builds (the form compared with furax by the correspondence check) computes the
 adjoint of what `A` computes, for the standard inner product on vectors of the declared sizes.
 What remains assumed is only about the leaves the denotation does not interpret (`EnvAdj E`: the maps standing
-for dense einsum / observation-matrix / opaque leaves and for Toeplitz leaves with BATCHED bands come with their
-adjoints, the Toeplitz ones are self-adjoint — C14 proves this for the einsum kernel); Toeplitz leaves with an
-un-batched band are interpreted by the verified kernel of C09 and their self-adjointness is a theorem
-(`ListSem.toeplitz_leaf_adjoint`, `ListSem.toeplitz_leaf_sym`), valid ones being `ListSem.toeplitzOK`; dense
-leaves are excluded because
-`op.T` builds a new dense leaf the environment cannot know (C14 covers them), and `DiagonalInverseOperator` must
+for observation-matrix / opaque leaves, for dense einsum leaves with one block array PER leaf and for Toeplitz leaves
+with a rank-0 band array come with their adjoints, the Toeplitz ones are self-adjoint); Toeplitz leaves with a band
+array `bs ++ [K]` are interpreted by the verified kernel of C09 and their self-adjointness is a theorem
+(`ListSem.toeplitz_leaf_adjoint`, `ListSem.toeplitz_leaf_sym`), valid ones being `ListSem.toeplitzOK`; dense einsum
+leaves with ONE block array shared by their leaves (`ListSem.denseShared`) are interpreted by the executable einsum
+kernel of C14 and their adjointness is a theorem too (`ListSem.dense_leaf_adjoint`, from `ListSem.denseLeaf_adjoint`),
+valid ones being `ListSem.denseOK`; the dense leaves with one block array per leaf are excluded (`TFormOK`) because
+`op.T` builds a new dense leaf the environment cannot know, and `DiagonalInverseOperator` must
 wrap a diagonal leaf (which is all the Python class accepts). -/
 theorem transpose_is_adjoint_closed (E : ListSem.Env) (hE : ListSem.EnvAdj E) (o t : Op) (hv : ListSem.ValidT o)
     (hw : o.WFT) (h : transposeOp o = .ok t) :
@@ -110,8 +112,8 @@ theorem transposeOp_denotes_adjoint (E : ListSem.Env) (hE : ListSem.EnvAdj E) (o
 /-- the hypothesis on the environment is satisfiable: every family of matrices (symmetric for Toeplitz leaves) -/
 theorem env_adjoint_inhabited : ListSem.EnvAdj ListSem.idEnv := ListSem.idEnv_adj
 
-/-- **no assumption at all** when every leaf is interpreted (no dense / observation-matrix / opaque leaf, Toeplitz
-leaves with un-batched bands only): `⟨A x, y⟩ = ⟨x, A.T y⟩` for every environment -/
+/-- **no assumption at all** when every leaf is interpreted (no observation-matrix / opaque leaf, dense einsum leaves
+with a shared block array only, Toeplitz leaves with a band array `bs ++ [K]` only): `⟨A x, y⟩ = ⟨x, A.T y⟩` for every environment -/
 theorem transpose_is_adjoint_closed_noEnv (E : ListSem.Env) (o t : Op)
     (hI : ListSem.AllLeaves (fun _ c p => ListSem.isEnvLeaf c p = false) o) (hv : ListSem.ValidT o)
     (hw : o.WFT) (h : transposeOp o = .ok t) :
